@@ -18,7 +18,7 @@ EXPLANATION = (
     "barrier_algorithm_base::arrive for every participant count.")
 ASSUMPTIONS = ["detail::condition_variable behaves as decided in C02/C07", "util::yield_while(f) returns only when f() is false"]
 THOROUGH_CONFIGS = [["-UNDEBUG", "-DPIKA_DEBUG"]]
-FLOORS = {"C09.R1": 10, "C09.R2": 4, "C09.R3": 5, "C09.R4": 6, "C09.R5": 5}
+FLOORS = {"C09.R1": 10, "C09.R2": 5, "C09.R3": 5, "C09.R4": 6, "C09.R5": 5}
 
 LOCK = "this->mtx_.data_"
 
@@ -212,6 +212,19 @@ def run(rep, tier):
         rep.ok("C09.R2", wt, "wait(): cond_.wait in a loop on the flag, with mtx_ held")
     else:
         rep.bad("C09.R2", wt, wt.loc, "wait", "event::wait must either see the flag set or wait on cond_ in a loop with mtx_ held")
+
+    # every park is preceded, under the lock, by a test of the flag: set() publishes the flag *before* it takes the lock and notifies,
+    # so a waiter that parks without having looked at the flag after locking can park after the only notification
+    for b, i, ev in c:
+        tested = precedes_on_all_paths(wt, lambda e: e.get("k") == "call" and callee_short(e) == "load" and P(e.get("recv") or {}) == "this->event_", (b, i),
+                                       reset_pred=lambda e: (e.get("k") == "ctor" and e.get("rec") == "std::unique_lock") or
+                                       (e.get("k") == "call" and callee_short(e) == "wait" and "cond_" in P(e.get("recv") or {})))
+        if tested:
+            rep.ok("C09.R2", wt, "wait(): the flag is tested under mtx_ before every park")
+        else:
+            rep.bad("C09.R2", wt, loc_of(ev), "park-before-test", "event::wait parks in cond_.wait on a path where the flag was not tested since mtx_ was taken (or since the last park): "
+                    "set() stores the flag and only then locks and notifies, so a set() that lands between the waiter's unlocked fast-path load and its lock acquisition "
+                    "has already notified - the waiter enqueues itself afterwards and sleeps for ever (call_once callers hang although the callable finished)")
 
     # ---- R3 call_once
     for fn in one("pika::call_once", inst=True):
